@@ -1,8 +1,9 @@
 (* Properties_C03.v — C03: deserializers are memory-safe, input-bounded and source-independent on any
-   bytes (JSON reader; the MessagePack reader's theorems join once Proofs/MsgPackRT is in). *)
+   bytes (JSON reader, then the MessagePack reader). *)
 From Coq Require Import NArith ZArith List Bool.
 From AJ Require Import Model.Base Model.Value Model.JsonParse.
-From AJ Require Import Spec.ParseSpec Proofs.Lex Proofs.ParseSafe.
+From AJ Require Import Model.MsgPack.
+From AJ Require Import Spec.ParseSpec Proofs.Lex Proofs.ParseSafe Proofs.MsgPackComplete.
 Local Open Scope N_scope.
 
 (* terminates: the fuel json_run gives to every loop is never exhausted — for ANY bytes, filter, limit, config *)
@@ -36,6 +37,22 @@ Print Assumptions C03_no_fault_any_state.
 (* Source independence: json_run is a function of the byte list alone (the model has no other input); each of
    the 13 input kinds is tied to it by the correspondence run.  The result is always a well-formed tree because
    `jv` is one by construction (every object entry has a key and a value). *)
+
+(* MessagePack reader, ANY bytes, filter, limit, configuration and outcome: what it has read is a prefix of the
+   input — it never reads past the end, never re-reads, and the count it reports is the length of that prefix
+   (the model has no fuel: mp_parse is structurally recursive, hence terminating, by construction) *)
+Theorem C03_msgpack_reads_a_prefix : forall cf f L i,
+  let o := mp_run cf f L i in
+  exists consumed, i = consumed ++ m_rest (mp_rd o) /\ m_reads (mp_rd o) = N.of_nat (length consumed).
+Proof. exact mp_run_reads_bounded. Qed.
+Print Assumptions C03_msgpack_reads_a_prefix.
+
+Theorem C03_msgpack_reads_a_prefix_any_state : forall cf L f dst r e v r', mp_parse cf L f dst r = (e, v, r') ->
+  m_reads r' = (m_reads r + N.of_nat (length (m_rest r) - length (m_rest r')))%N /\
+  (length (m_rest r') <= length (m_rest r))%nat /\
+  exists consumed, m_rest r = consumed ++ m_rest r'.
+Proof. exact mp_reads_bounded. Qed.
+Print Assumptions C03_msgpack_reads_a_prefix_any_state.
 
 Example C03_example :   (* truncated input ending inside a \u escape: classified, no fault, reads = length *)
   let o := json_run default_cfg None 10 [91; 34; 92; 117; 48; 48] in
